@@ -52,9 +52,10 @@ PARENT = {"name": "object", "t": "object_parameter", "kw": {"value": {"h": "P"}}
 NO_OPT_KW = {"bool_parameter"}
 
 
-def V(t, kw=None, m=None, parent=False, fx="small", alts=(), lvl=0):
-    """A form variant. alts: values for set_data_value / data-setter entries. lvl: 0 quick, 1 thorough."""
-    return {"t": t, "kw": kw or {}, "m": m or {}, "parent": parent, "fx": fx, "alts": list(alts), "lvl": lvl}
+def V(t, kw=None, m=None, parent=False, fx="small", alts=(), lvl=0, solo=False):
+    """A form variant. alts: values for set_data_value / data-setter entries. lvl: 0 quick,
+    1 thorough. solo: only in single-form files (F1)."""
+    return {"t": t, "kw": kw or {}, "m": m or {}, "parent": parent, "fx": fx, "alts": list(alts), "lvl": lvl, "solo": solo}
 
 
 def variants():
@@ -76,7 +77,7 @@ def variants():
     multi = [["Option A"], ["Option B"], ["Option A", "Option B"], []]
     for i, v in enumerate(multi):
         out.append(V("choice_string_parameter", {"value": v, "multi_select": True}, alts=multi + ["Option B"] if i == 0 else []))
-    out.append(V("choice_string_parameter", {"value": "inf", "choice_list": {"t": ["inf", "x.geoh5", ""]}}, lvl=1))
+    out.append(V("choice_string_parameter", {"value": "inf", "choice_list": {"t": ["inf", "x.geoh5", ""]}}, lvl=1, solo=True))
     # -- files ----------------------------------------------------------------------------
     files = [{"p": "data.txt"}, "", {"pp": ["data.txt", "more.txt"]}, {"p": "other.geoh5"}, {"p": "missing.geoh5"}]
     for i, v in enumerate(files):
@@ -233,7 +234,20 @@ def enumerate_cases(quick: bool):
         {"name": "drv", "t": "float_parameter", "kw": {"value": 1.0, "optional": "enabled"}, "m": {}},
         {"name": "drv", "t": "float_parameter", "kw": {"value": 1.0, "optional": "disabled"}, "m": {}},
     ]
-    dep_targets = first_of_template(vs) if quick else vs
+    dep_targets = first_of_template(vs) if quick else [v for v in vs if not v["solo"]]
+    if quick:
+        # F4q: parameters holding no value (None / "" / no property) that an unmet dependency makes
+        # acceptable, and None given to a parameter without an `enabled` member
+        nones = [v for v in vs if not v["solo"] and (v["kw"].get("value", 0) in (None, "") or ("prop" in v["kw"] and v["kw"]["prop"] is None))]
+        drv = {"name": "drv", "t": "bool_parameter", "kw": {"value": False}, "m": {}}
+        for var in nones:
+            for opt in OPTS:
+                spec = spec_of(var, "x", opt, {"dependency": "drv", "dependencyType": "enabled"})
+                cases.append(mk_case([dict(drv), spec], fx=var["fx"], parent=var["parent"], c2=False))
+        for var in first_of_template(vs):
+            spec = spec_of(var, "x", None, {"dependency": "drv", "dependencyType": "enabled"})
+            for op in ("set", "data"):
+                cases.append(mk_case([dict(drv), spec], fx=var["fx"], parent=var["parent"], pre=[[op, "x", None]], c2=False))
     for var in dep_targets:
         for drv in drivers:
             for dtype in ("enabled", "disabled", None):
@@ -270,15 +284,15 @@ def enumerate_cases(quick: bool):
                     spec = spec_of(var, "x", opt, extra)
                     for forms in ([dict(lead), spec], [spec, dict(lead)]):
                         cases.append(mk_case(list(forms), fx=var["fx"], parent=var["parent"], c2=not quick))
-                    if not quick and var["alts"]:
+                    if var["alts"] and (not quick or (lead in leaders[:2] and en is None)):
                         for alt in var["alts"][:1] + [None]:
-                            cases.append(mk_case([dict(lead), spec], fx=var["fx"], parent=var["parent"], pre=[["set", "x", alt]]))
-                            cases.append(mk_case([dict(lead), spec], fx=var["fx"], parent=var["parent"], pre=[["set", "lead", None]]))
+                            cases.append(mk_case([dict(lead), spec], fx=var["fx"], parent=var["parent"], pre=[["set", "x", alt]], c2=not quick))
+                            cases.append(mk_case([dict(lead), spec], fx=var["fx"], parent=var["parent"], pre=[["set", "lead", None]], c2=not quick))
     # F6 (thorough): every ordered pair of forms, independent, each optional state
     if not quick:
         pv = []
         reps = first_of_template(vs)
-        for var in vs:  # every variant; all optional states for one representative per template / mode
+        for var in [v for v in vs if not v["solo"]]:  # every variant; all optional states for one representative per template / mode
             for opt in OPTS if any(var is r for r in reps) else [None]:
                 pv.append((var, opt))
         for va, oa in pv:
